@@ -298,7 +298,8 @@ def attribute_build_errors(ctx, output, bins):
         mv = re.match(r"\s*pub mod (t|tv_\w+|p) \{ #\[derive", text)
         if mv:
             variant = mv.group(1)
-        hits.append({"shard": shard, "line": line, "module": mod, "derive_module": variant, "message": msg})
+        hits.append({"shard": shard, "line": line, "module": mod, "derive_module": variant, "message": msg,
+                     "getter_call": "harness::getter_obs" in text and "no method named" in msg})
     return hits
 
 
@@ -318,7 +319,7 @@ def build_harness(ctx, bins, profile="dev", toolchain=None, extra_env=None, targ
     p = ctx.cargo(args, HARNESS_DIR, "build harness (%d shards, %s)" % (len(bins), profile), timeout=5400, env=env, toolchain=toolchain)
     if p.returncode != 0:
         hits = attribute_build_errors(ctx, p.stdout, bins)
-        derive_hits = [h for h in hits if h["derive_module"] and h["derive_module"] != "p"]
+        derive_hits = [h for h in hits if (h["derive_module"] and h["derive_module"] != "p") or h["getter_call"]]
         if derive_hits and len(derive_hits) == len(hits):
             return None, derive_hits
         tail = "\n".join([l for l in p.stdout.splitlines() if l.startswith("error") or "-->" in l][:30])
@@ -430,6 +431,20 @@ def run_harness_cfg(ctx, profile="dev", prop=None, families=None, extra_args=Non
               "inconclusive": [], "notes": []}
     if not ok:
         # generated code does not compile: a verdict for C11 / C20, nothing can be said for the others
+        getter_hits = [h for h in derive_errors if h.get("getter_call")]
+        if getter_hits and len(getter_hits) == len(derive_errors):
+            # every error is "no method named <rule>" on a getter call the recorder emitted from the
+            # rule's expression: the derive did not generate an accessor for a rule the expression mentions
+            if prop == "C16":
+                h = getter_hits[0]
+                sig = "unclassified/C16/getter-not-generated"
+                result["violations"].append({"signature": sig, "what": "grammar module %s: %s (the rule's expression mentions that rule outside negative predicates, so emit_rule_reference must generate the accessor)" % (h["module"], h["message"]),
+                                             "witness": {"errors": getter_hits[:10], "config": config}})
+                result["violation_counts"][sig] = len(getter_hits)
+                result["distinct_nontrivial"] = 2
+                result["evaluations"] = len(getter_hits)
+                return result
+            raise Inconclusive("a getter the recorder calls is not generated (%s: %s); see C16" % (getter_hits[0]["module"], getter_hits[0]["message"]))
         if prop in ("C11", "C20"):
             h = derive_errors[0]
             sig = "unclassified/%s/generated-code-does-not-compile" % prop
